@@ -33,7 +33,8 @@ ASSUMPTIONS = ["formats: x, or [<>!=@]?[count]c with c in bBhHiIqQ (native forma
                "a program with a map access outside the map value is rejected as a whole (kernel verifier); the interpreter's fault stands for it",
                "per-CPU lookups return one block of round_up(value_size, 8) bytes per possible CPU (emulated kernel)",
                "a map all of whose variables have size 0 ('0B') is never created; such declaration sets are outside the property",
-               "x values are dyadic decimals, for which float*FIXED_BASE is exact (the float conversion itself belongs to C02)"]
+               "x values are dyadic decimals, for which float*FIXED_BASE is an exact integer, so the setter's rounding plays no role "
+               "(the float -> fixed-point conversion itself belongs to C02)"]
 RULE = ("cases = 1-12 globalVar declarations spread over a program class with 0-3 bases (chain or fan), 0-3 subprogram instances of 1-2 "
         "classes with own bases, optional overriding redeclaration, optional map declared in a base class, optional duplicated subprogram; "
         "kinds: layout (Python set/get of distinct random values), prog (real program stores constants / copies variables, run in interp), "
